@@ -107,6 +107,7 @@ let parse_op (toks : string list) : op =
   | ["snap"; k] -> OSnap (nat k)
   | ["tree"; k] -> OTree (nat k)
   | ["hread"; r; n] -> OHRead (nat r, n_of_int (int_of_string n))
+  | ["hreadn"; r; n] -> OHRead (nat r, n_of_int (int_of_string n))
   | ["hseek"; r; w; o] ->
       let o = z_of_string o in
       OHSeek (nat r, (match w with "s" -> SeekStart o | "c" -> SeekCurrent o | "e" -> SeekEnd o | _ -> failwith "whence"))
@@ -177,8 +178,19 @@ type pending = { mutable name : string; mutable bases : basekind list; mutable c
                  mutable ops : op list; mutable fuel : int; mutable embfiles : (path * bytes) list;
                  mutable conc : bool; mutable setup : op list; mutable threads : op list list; mutable sched : string }
 
+(* `vfsmodel --async SEED file`: the case through the async model (futures driven under an oracle
+   of Pendings that is a function of the seed, the case and the op index) *)
+let async_seed = if Array.length Sys.argv > 2 && Sys.argv.(1) = "--async" then Some (int_of_string Sys.argv.(2)) else None
+let oracle_for seed name idx =
+  let st = ref ((Hashtbl.hash (seed, name, int_of_nat idx)) land 0x3fffffff) in
+  let next () = st := (!st * 1103515245 + 12345) land 0x3fffffff; (!st lsr 12) in
+  let n = next () mod 48 in
+  let rec bits k = if k = 0 then [] else (next () mod 3 = 0) :: bits (k - 1) in
+  bits n
+
 let () =
-  let ic = if Array.length Sys.argv > 1 then Stdlib.open_in Sys.argv.(1) else Stdlib.stdin in
+  let argi = if async_seed = None then 1 else 3 in
+  let ic = if Array.length Sys.argv > argi then Stdlib.open_in Sys.argv.(argi) else Stdlib.stdin in
   let cur = { name = ""; bases = []; cfg = []; ops = []; fuel = 400; embfiles = []; conc = false; setup = []; threads = []; sched = "" } in
   let finish_conc () =
     let cfg = List.rev cur.cfg in
@@ -195,7 +207,9 @@ let () =
     if cur.conc then finish_conc () else
     let cfg = List.rev cur.cfg in
     let c = { c_bases = List.rev cur.bases; c_cfg = cfg; c_ops = List.rev cur.ops } in
-    let outs = run_case (nat_of_int cur.fuel) c in
+    let outs = (match async_seed with
+      | None -> run_case (nat_of_int cur.fuel) c
+      | Some seed -> run_case_async (nat_of_int cur.fuel) (oracle_for seed cur.name) c) in
     List.iteri (fun i (o, log) ->
       Printf.printf "r %s %d %s\n" cur.name i (res_s value_s o);
       if log <> [] then
